@@ -12,5 +12,6 @@ def k_harnesses(tier):
         ("c05_find_train_intersect_check", 900, [F + "find_train_intersect (LinkOptType::Check)"], ["idx_sentinel < len", "link indices index links_blocked in range"], {"path length": "1..5", "unwind": 7}),
     ]
     if tier == "thorough":
-        hs.append(("c05_add_blocking_trains", 5400, [F + "add_blocking_trains"], ["base view ends at trains_blocking.len()", "add view inside trains_blocking"], {"trains_blocking length": "0..3", "unwind": 6}))
+        for n in (1, 2, 3):
+            hs.append((f"c05_add_blocking_trains_len{n}", 3600, [F + "add_blocking_trains"], ["base view ends at trains_blocking.len()", "add view inside trains_blocking"], {"trains_blocking length": n, "unwind": n + 3}))
     return hs
